@@ -271,8 +271,16 @@ class SpanQuery(Query):
     wrapped query, and ``matcher()`` to return a span-aware matcher object.
     """
 
+    @staticmethod
+    def _span_context(searcher, context):
+        # Span matchers read the spans of their sub-matchers' current
+        # posting, so the sub-matchers must be the kind that have one
+        if context is None:
+            context = searcher.context()
+        return context.set(needs_current=True)
+
     def _subm(self, s, context=None):
-        return self.q.matcher(s, context)
+        return self.q.matcher(s, self._span_context(s, context))
 
     def __repr__(self):
         return "%s(%r)" % (self.__class__.__name__, self.q)
@@ -422,6 +430,7 @@ class SpanNear(SpanQuery):
                               ordered=self.ordered, mindist=self.mindist)
 
     def matcher(self, searcher, context=None):
+        context = self._span_context(searcher, context)
         ma = self.a.matcher(searcher, context)
         mb = self.b.matcher(searcher, context)
         return SpanNear.SpanNearMatcher(ma, mb, slop=self.slop,
@@ -579,6 +588,7 @@ class SpanNear2(SpanQuery):
                               ordered=self.ordered, mindist=self.mindist)
 
     def matcher(self, searcher, context=None):
+        context = self._span_context(searcher, context)
         ms = [q.matcher(searcher, context) for q in self.qs]
         return self.SpanNear2Matcher(ms, slop=self.slop, ordered=self.ordered,
                                      mindist=self.mindist)
@@ -671,6 +681,7 @@ class SpanOr(SpanQuery):
         return self.__class__([fn(sq) for sq in self.subqs])
 
     def matcher(self, searcher, context=None):
+        context = self._span_context(searcher, context)
         matchers = [q.matcher(searcher, context) for q in self.subqs]
         return make_binary_tree(SpanOr.SpanOrMatcher, matchers)
 
@@ -715,6 +726,7 @@ class SpanBiQuery(SpanQuery):
         return self.__class__(fn(self.a), fn(self.b))
 
     def matcher(self, searcher, context=None):
+        context = self._span_context(searcher, context)
         ma = self.a.matcher(searcher, context)
         mb = self.b.matcher(searcher, context)
         return self._Matcher(ma, mb)
